@@ -433,6 +433,16 @@ def run(fx, rep, tier):
     r6_sentence(facts, rep)
     r7_index_options(facts, rep)
     r9_sources(facts, rep)
+    # the constant a lookup reports is the constant that was found, whole (value, unit, description, source)
+    rep.rule("C16-R10", "the constant reported for a looked-up phrase is the matched constant unchanged (summary of eval::eval on a "
+                        "WORD / SENTENCE node with descriptions on, shared with C18-R2)")
+    from . import c18
+    s10 = type(rep)(rep.prop, rep.tier)
+    c18.r1_r2(facts, s10)
+    for o in s10.obls:
+        if o["rule"] == "C18-R2":
+            o["rule"] = "C16-R10"
+            rep.obls.append(o)
     rep.rule("C16-R8", "a fact can only be found in an index that was built: every kind of session (in memory, fresh directory, "
                        "re-opened, re-created index) serves a fully built index (shared with C15-R4 and C15-R6)")
     from . import c15
